@@ -384,6 +384,15 @@ class Fmt:
         self.prec = prec
         self.kind = kind        # 'f' fixed, 'opaque' unknown text, 'str' str() of value
         self.id = next(_ids)
+        self.dots = None        # 'exact' numerals: number of decimal points in the text when it is known (0 or 1)
+
+    def ndots(self):
+        """how many '.' the text of this piece contains, None if unknown"""
+        if self.kind == 'f' and isinstance(self.prec, int):
+            return 1 if self.prec > 0 else 0
+        if self.kind == 'exact':
+            return self.dots
+        return None
 
     def __repr__(self):
         return f'Fmt({self.value}:{self.kind}{self.prec})'
